@@ -65,5 +65,11 @@ Theorem finished_run_is_balanced lim n prog stdin s o :
 Proof.
   intros E St Fin. apply balanced_counts. eapply depth_zero_at_end; eauto.
 Qed.
+(* at EVERY moment of a run the depth the observer is told is the number of evaluations begun and not yet finished *)
+Theorem depth_is_pending_count lim n prog stdin s : msteps lim n (init prog stdin) = inl s ->
+  befores (rev (events (m_dbg s))) = (afters (rev (events (m_dbg s))) + depth (m_dbg s))%nat.
+Proof.
+  intros E. destruct (events_well_nested _ _ _ _ _ E) as (Hd & Hr & _). apply replay_counts in Hr. rewrite tagged_length in Hr. cbn [length] in Hr. lia.
+Qed.
 Example nested_somewhere : replay [EB 1 2%positive (0,0,0)%N; EB 2 3%positive (0,0,0)%N; EA 2 3%positive (0,0,0)%N 0%N; EA 1 2%positive (0,0,0)%N 0%N] [] = Some [].
 Proof. reflexivity. Qed.
